@@ -33,7 +33,9 @@ Record pst := {
   p_log : list pev
 }.
 
-Inductive ptid := TSub (j : nat) | TWrk (k : nat) | TWrkExit (k : nat).
+Inductive ptid := TSub (j : nat) | TWrk (k : nat) | TWrkExit (k : nat)
+| TObs.   (* the observer notes how many Submit calls have returned and which tasks are running (two
+             pseudo-events of the log; always enabled; touches nothing else) *)
 
 Fixpoint set_nth {A} (l : list A) (i : nat) (x : A) : list A :=
   match l, i with
@@ -52,6 +54,11 @@ Definition ends (l : list pev) : list taskid := flat_map (fun e => match e with 
 Definition busy_tasks (ws : list wst) : list taskid := flat_map (fun w => match w with PBusy t => [t] | _ => [] end) ws.
 Definition pending_sends (subs : list sub) : list taskid :=
   flat_map (fun s => if s_adding s then match s_ops s with PSubmit t :: _ => [t] | _ => [] end else []) subs.
+
+Fixpoint ins_nat (x : nat) (l : list nat) : list nat :=
+  match l with [] => [x] | y :: t => if Nat.leb x y then x :: l else y :: ins_nat x t end.
+Definition sort_nats (l : list nat) : list nat := fold_right ins_nat [] l.
+
 
 Section Pool.
 Variable qcap : nat.
@@ -128,6 +135,11 @@ Definition pstep (s : pst) (t : ptid) : option pst :=
           else None
       | _ => None
       end
+  | TObs =>
+      Some {| p_subs := p_subs s; p_queue := p_queue s; p_wg := p_wg s; p_ws := p_ws s;
+              p_closed := p_closed s; p_added := p_added s;
+              p_log := p_log s ++ [EvSubmitted (length (p_added s) - length (pending_sends (p_subs s)));
+                                    EvPark (sort_nats (busy_tasks (p_ws s)))] |}
   end.
 
 Fixpoint prun (s : pst) (sched : list ptid) : pst :=
@@ -148,6 +160,7 @@ Definition internal_en (s : pst) (t : ptid) : bool :=
       end
   | TWrkExit k => match p_queue s with [] => (match pstep s t with Some _ => true | None => false end) | _ => false end
   | TSub _ => match pstep s t with Some _ => true | None => false end
+  | TObs => false
   end.
 
 Definition all_ptids (s : pst) : list ptid :=
@@ -162,10 +175,6 @@ Fixpoint pquiesce (fuel : nat) (s : pst) : pst :=
            | None => s
            end
   end.
-
-Fixpoint ins_nat (x : nat) (l : list nat) : list nat :=
-  match l with [] => [x] | y :: t => if Nat.leb x y then x :: l else y :: ins_nat x t end.
-Definition sort_nats (l : list nat) : list nat := fold_right ins_nat [] l.
 
 Definition pchoose (rel : list taskid) (busy : list taskid) : option taskid :=
   match find (fun t => existsb (Nat.eqb t) busy) rel with
